@@ -4,6 +4,7 @@ import SlimProofs.LegacyLeaf
 import SlimProofs.LegacyArray
 import SlimProofs.LegacyBuildOld
 import SlimProofs.LegacyRoundTrip
+import SlimProofs.LegacyFuel
 /-
   SlimProps.C06 — data written by every older compatible version loads and answers correctly:
   the four conversion lemmas of DESIGN §6 C06, universally quantified.
@@ -16,6 +17,7 @@ import SlimProofs.LegacyRoundTrip
     C06_fix_leaf_size     0.5.10/0.5.11 → 0.5.12: bare leaf bytes become today's leaf array
     C06_step_rebase       ≤ 0.5.9: `getStepBefore000510` on the written steps section
     C06_bm16              ≤ 0.5.9: `getBM16Child` on the written children section (both encodings)
+    C06_leaf_value, C06_index_presence   ≤ 0.5.9: `GetBytes` on the leaves section, `bmhas` on all three
 
   NOT proved here (stated for the record):
 
@@ -130,6 +132,25 @@ theorem C06_fix_leaf_size (s : SlimMsg) (vals : List Bytes) (w : Nat) (hw : 0 < 
       List.getElem?_eq_getElem hi]
     rfl
 
+/-- The same in terms of the bare byte array of the stream: any `n·w` bytes (`n ≥ 1`, `w ≥ 1` the
+    encoder's width) become an array of `N = EltCnt = n` present elements and `VLenArray.get i`
+    is the `i`-th slice `bytes[i·w : i·w + w]`. -/
+theorem C06_fix_leaf_size_bytes (s : SlimMsg) (bs : Bytes) (w n : Nat) (hw : 0 < w) (hn : 0 < n)
+    (hlen : bs.length = n * w) (hl : s.leaves = some { bytes := bs }) :
+    ∃ lv pres, fixLeafSize s (some w) = .ok { s with leaves := some lv } ∧
+      lv.n = n ∧ lv.eltCnt = n ∧ lv.fixedSize = w ∧ lv.positionBM = none ∧ lv.bytes = bs ∧
+      lv.presenceBM = some pres ∧ (∀ i, i < n → getBit pres.words i = true) ∧
+      ∀ i, i < n → Slim.vlenGet lv i = .ok ((bs.drop (i * w)).take w) := by
+  have hfl := chunks_flatten w n bs hlen
+  have hcl := chunks_length w n bs
+  obtain ⟨lv, pres, h1, _, h3, h4, h5, h6, h7, h8, h9, h10⟩ :=
+    C06_fix_leaf_size s (chunks w n bs) w hw
+      (by intro h; rw [h] at hcl; simp at hcl; omega) (chunks_width w n bs hlen) (by rw [hfl]; exact hl)
+  refine ⟨lv, pres, h1, by rw [h3, hcl], by rw [h4, hcl], h5, h6, by rw [h7, hfl], h8, ?_, ?_⟩
+  · intro i hi; exact h9 i (by rw [hcl]; exact hi)
+  · intro i hi
+    rw [h10 i (by rw [hcl]; exact hi), chunks_getElem]
+
 example : ∃ lv pres, fixLeafSize { leaves := some { bytes := [1, 0, 0, 0, 2, 0, 0, 0] } } (some 4)
       = .ok { leaves := some lv } ∧ some lv = Slim.newVLenArray [[1, 0, 0, 0], [2, 0, 0, 0]] ∧
       lv.n = 2 ∧ lv.eltCnt = 2 ∧ lv.fixedSize = 4 ∧ lv.positionBM = none ∧
@@ -161,6 +182,15 @@ theorem C06_bm16 (vr : Variant) (nodes : List OldNode) (mw id : Nat)
     (hid : id < nodes.length) (hin : nodes[id].inner = true) (hbm : ∀ n ∈ nodes, n.bm < 65536) :
     getBM16Child (childrenMsg vr nodes mw) id = .ok (nodes[id].bm * 2) :=
   getBM16Child_childrenMsg vr nodes mw id hid hin hbm
+
+/-- The third accessor of the conversion: on the leaves section the writer wrote, `Base.GetBytes`
+    returns the encoded value of the key that ends at the node — also for a node that is inner and
+    leaf at once (the loader then creates the explicit end-of-key child from it). -/
+theorem C06_leaf_value (nodes : List OldNode) (vals : Array Bytes) (w id k : Nat)
+    (hid : id < nodes.length) (hleaf : nodes[id].leaf = some k)
+    (hw : ∀ n ∈ nodes, ∀ j, n.leaf = some j → (vals.getD j []).length = w) :
+    getBytes (leavesMsg nodes vals) id w = .ok (some (vals.getD k [])) :=
+  getBytes_leavesMsg nodes vals w id k hid hleaf hw
 
 /-- presence in the three index bitmaps is exactly "the node has the property" -/
 theorem C06_index_presence (p : OldNode → Bool) (nodes : List OldNode) (mw : Nat) (elts : Bytes) (id : Nat) :
@@ -194,6 +224,15 @@ theorem C06_sections_read (vr : Variant) (keys vals : List Bytes) (ch st lv : Ar
     refine ⟨nodes, rfl, fun id hid => ⟨fun hlim => ?_, fun hin => ?_⟩⟩
     · exact C06_step_rebase nodes.toList _ id hid hlim
     · exact C06_bm16 vr nodes.toList _ id hid hin (buildOld_bm_lt keys vr.leafSteps nodes hb)
+
+/-- The reconstructed three-section writers are total on every key list `NewSlimTrie` accepts
+    (strictly ascending): the fuel of the model's breadth-first loop (`2n + 1`) is never exhausted,
+    so "all key sets the old writers could encode" is every strictly ascending key set (within
+    the `uint16` step limit, which only affects what the written steps mean, not totality). -/
+theorem C06_writer_total (variant : String) (vr : Variant) (keys vals : List Bytes)
+    (hv : parseVariant variant = some vr) (h : strictAsc keys = true) :
+    ∃ b, writeLegacy3 variant keys vals = .ok b :=
+  writeLegacy3_total variant vr keys vals hv h
 
 /-! ### towards C06_load_legacy: 0.5.10 / 0.5.11 at message level -/
 
@@ -249,10 +288,13 @@ example : (buildOld [[0x61], [0x61, 0x62], [0x62]] false).toOption.map (·.toLis
 #print axioms C06_prefix_reencode_newSelect
 #print axioms C06_prefix_reencode_nibs
 #print axioms C06_fix_leaf_size
+#print axioms C06_fix_leaf_size_bytes
 #print axioms C06_step_rebase
 #print axioms C06_bm16
+#print axioms C06_leaf_value
 #print axioms C06_index_presence
 #print axioms C06_sections_read
+#print axioms C06_writer_total
 #print axioms C06_load_0510_msg_partial
 #print axioms C06_prefix_roundtrip
 #print axioms C06_select_wordIndex
